@@ -190,12 +190,36 @@ impl Sim {
     /// the global task pool is not contended by the 16 monitor workers). `true` keeps bevy's default
     /// multi-threaded executor, where unordered systems really run in varying orders.
     pub fn with_executor(order: u8, multi_threaded: bool) -> Sim {
+        Self::build(order, multi_threaded, 0)
+    }
+
+    /// Like `with_executor`, but the key type is registered for *both* animated component types (`dv_key` = 1: for
+    /// `Dv` first, 2: for `Cv` first) — one key type shared by selectors of two component types.
+    pub fn with_shared_key(order: u8, multi_threaded: bool, dv_key: u8) -> Sim {
+        Self::build(order, multi_threaded, dv_key)
+    }
+
+    fn build(order: u8, multi_threaded: bool, dv_key: u8) -> Sim {
         let mut app = App::new();
         let mut time = Time::default();
         let start = Instant::now();
         time.update_with_instant(start); // prime the clock: the next update has a real delta
         app.insert_resource(time);
         match order % 4 {
+            0 | 1 if dv_key != 0 => {
+                if order % 4 == 0 {
+                    app.add_plugins(AnimationPlugin::<Cv>::new()).add_plugins(AnimationPlugin::<Dv>::new());
+                } else {
+                    app.add_plugins(AnimationPlugin::<Dv>::new()).add_plugins(AnimationPlugin::<Cv>::new());
+                }
+                if dv_key == 1 {
+                    app.register_animation_key::<Dv, Key>();
+                    app.register_animation_key::<Cv, Key>();
+                } else {
+                    app.register_animation_key::<Cv, Key>();
+                    app.register_animation_key::<Dv, Key>();
+                }
+            }
             0 => {
                 app.add_plugins(AnimationPlugin::<Cv>::new()).add_plugins(AnimationPlugin::<Dv>::new());
                 app.register_animation_key::<Cv, Key>();
